@@ -293,8 +293,17 @@ def rule_R20_3(ctx):
                 or f.module.startswith(SMOD[0]) or f.generated:
             continue      # (the validator lives with the evaluator, not the binder)
         sites = [(bb, kd) for bb, i, pl, kd, ao, sp in f.aggregates(ERR, "InvalidBindTarget")]
-        if not sites and not any((ERR, "InvalidBindTarget") in ops.constructs(prog, g)
-                                 for g in prog.closures_of(f.path)):
+        # (the error may also be built by a small free helper of the validator:
+        # `new_invalid_param_err(loc, descr)`)
+        hsites = []
+        for c in f.calls():
+            h = prog.fns.get(c.res) if not c.is_ptr else None
+            if h is not None and h.full and not h.is_closure and not h.generated and not h.from_expansion \
+                    and h.impl_trait is None and h.path != f.path and len(h.blocks) <= 20 \
+                    and any(True for _ in h.aggregates(ERR, "InvalidBindTarget")):
+                hsites.append(c)
+        if not sites and not hsites and not any((ERR, "InvalidBindTarget") in ops.constructs(prog, g)
+                                                for g in prog.closures_of(f.path)):
             continue
         sw = None
         for bb in range(len(f.blocks)):
@@ -311,6 +320,10 @@ def rule_R20_3(ctx):
         rej = set()
         for bb, kd in sites:
             rej |= {t[0] for t in vf.at(bb)}
+        for c in hsites:
+            st = vf.at(c.bb)
+            if len(st) < len(variants):
+                rej |= {t[0] for t in st}
         for g in prog.closures_of(f.path):
             if (ERR, "InvalidBindTarget") in ops.constructs(prog, g):
                 for c in f.calls():
